@@ -4,6 +4,7 @@ package rules
 
 import (
 	"fmt"
+	"go/constant"
 	"go/token"
 	"go/types"
 
@@ -303,12 +304,30 @@ func c20Stack(r *fw.Run, cs *c20ctx) {
 			}
 			b := ec.ia.Block()
 			top := info.len.Sub(fw.PConst(1))
+			// "0" as named where the loop is: the constant, or a parameter of the helper
+			// containing the loop that Stop binds to the constant 0 (cancelFrom(0))
+			zeros := []*fw.Poly{fw.PConst(0)}
+			for prm, arg := range ec.args {
+				if c, isC := arg.(*ssa.Const); isC && c.Value != nil && c.Value.Kind() == constant.Int && c.Int64() == 0 {
+					zeros = append(zeros, info.env.Of(prm))
+				}
+			}
 			switch {
 			case info.step == -1:
-				ok := info.init.Equal(top) && exactFact(info.env, b, fw.Cmp{P: info.P, Rel: fw.GE})
+				ok := false
+				for _, z := range zeros {
+					if info.init.Equal(top) && exactFact(info.env, b, fw.Cmp{P: info.P.Sub(z), Rel: fw.GE}) {
+						ok = true
+					}
+				}
 				ru.Check(ok, key, p.Rel(ec.call.Pos()), "for i = len-1 .. 0", fmt.Sprintf("descending loop must run from len-1 (is %s) down to and including 0 (facts: %v)", info.init, info.env.Facts(b)))
 			case info.step == 1:
-				ok := info.init.Equal(fw.PConst(0)) && exactFact(info.env, b, fw.Cmp{P: info.P.Sub(info.len), Rel: fw.LT})
+				ok := false
+				for _, z := range zeros {
+					if info.init.Equal(z) && exactFact(info.env, b, fw.Cmp{P: info.P.Sub(info.len), Rel: fw.LT}) {
+						ok = true
+					}
+				}
 				ru.Check(ok, key, p.Rel(ec.call.Pos()), "for i = 0 .. len-1", fmt.Sprintf("ascending loop must run from 0 (is %s) while i < len (facts: %v)", info.init, info.env.Facts(b)))
 			default:
 				ru.Fail(key, p.Rel(ec.call.Pos()), fmt.Sprintf("loop step %d skips elements", info.step))
